@@ -247,6 +247,16 @@ def run(ctx):
                 ok_back = bits_of(b.dequantize(), "f16") == bits_of(ds, "f16")
             if not ok_back:
                 ctx.spec_failures.append(("C15:back-conversion-does-not-restore", {"N": N, "K": K, "back_data_shape": list(bd.shape), "zeropoint_dtype": str(b._zeropoint.dtype)}))
+            # the restored tensor is a standard tensor in every respect: integer zero-points of the original dtype, and optimising it
+            # again gives an AWQ tensor that denotes the same weights
+            if b._zeropoint.dtype != qb._zeropoint.dtype or b._scale.dtype != qb._scale.dtype:
+                ctx.spec_failures.append(("C15:back-conversion-does-not-restore", {"N": N, "K": K, "zeropoint_dtype": str(b._zeropoint.dtype), "expected": str(qb._zeropoint.dtype)}))
+            try:
+                a3 = AWQBitsTensor(b.qtype, b.axis, b._group_size, b.size(), b.stride(), b._data.unpack(), b._scale, b._zeropoint)
+                if bits_of(a3.dequantize(), "f16") != bits_of(d, "f16"):
+                    ctx.spec_failures.append(("C15:reoptimised-tensor-denotes-other-weights", {"N": N, "K": K, "max_diff": float((a3.dequantize().float() - d.float()).abs().max())}))
+            except Exception as e3:  # noqa
+                ctx.spec_failures.append(("C15:reoptimisation-raises", {"N": N, "K": K, "raises": exc_name(e3)}))
             # converting back is a read: the AWQ tensor denotes the same weights afterwards and converts back to the same tensor again
             d2 = a.dequantize()
             b2 = a.qbits_tensor()
